@@ -326,6 +326,9 @@ package ristretto
 //@   at call del#1 assert [C09] #victim-cost minCost == p.evict.keyCosts[minKey]
 //@   at call del#1 assert [C09] #victim-below-newcomer tinyEst(p.admit, minKey) <= tinyEst(p.admit, key)
 //@   at call del#1 assert [C09] #victim-least forall j int :: 0 <= j && j < len(sample) ==> tinyEst(p.admit, minKey) <= tinyEst(p.admit, sample[j].key)
+//@   at call del#1 assert #hint-fresh-victim forall i int :: 0 <= i && i < len(victims) ==> victims[i].Key != minKey
+//@   at call roomLeft#2 assert #hint-prefix-distinct forall i, j int :: 0 <= i && i < j && j < len(victims)-1 ==> victims[i].Key != victims[j].Key
+//@   at call roomLeft#2 assert #hint-vall-older forall k uint64 :: old(gcHas(p.evict.keyCosts, k)) && !gcHas(p.evict.keyCosts, k) && k != minKey ==> exists j int :: 0 <= j && j < len(victims)-1 && victims[j].Key == k
 //@   at call roomLeft#2 assert #hint-last len(victims) > 0 && victims[len(victims)-1].Key == minKey
 //@   at call roomLeft#2 assert #hint-older forall i int :: 0 <= i && i < len(victims)-1 ==> victims[i].Key != minKey && !gcHas(p.evict.keyCosts, victims[i].Key)
 //@   at call add#3 assert [C09] #reject-lower tinyEst(p.admit, key) < minHits && forall j int :: 0 <= j && j < len(sample) ==> minHits <= tinyEst(p.admit, sample[j].key)
